@@ -521,9 +521,31 @@ class Execution:
                 if name == "targets-rule":
                     ls = [l for l in out.decode("latin-1").split("\n") if l]
                     extra = {"rule": args[0], "routs": ls, "sorted": ls == sorted(ls)}
+                if name == "query":
+                    q = {"rule": "", "ins": [], "vals": [], "outs": [], "vfor": [], "head": ""}
+                    sec = ""
+                    for l in out.decode("latin-1").split("\n"):
+                        if not l:
+                            continue
+                        if not l.startswith(" "):
+                            q["head"] = l
+                        elif l.startswith("  input: "):
+                            q["rule"] = l[len("  input: "):]; sec = "ins"
+                        elif l == "  validations:":
+                            sec = "vals"
+                        elif l == "  outputs:":
+                            sec = "outs"
+                        elif l == "  validation for:":
+                            sec = "vfor"
+                        elif l.startswith("    ") and sec:
+                            x = l[4:]
+                            if sec == "ins":
+                                x = ("i:" + x[2:]) if x.startswith("| ") else ("o:" + x[3:]) if x.startswith("|| ") else ("e:" + x)
+                            q[sec].append(x)
+                    extra = {"q": q}
                 if name == "targets-all":
                     extra = {"tall": [l for l in out.decode("latin-1").split("\n") if l]}
-                self.events.append({"e": "Tool", "tool": name, "targets": args if name in ("commands", "commands1", "inputs", "multi-inputs") else [], "rc": rc,
+                self.events.append({"e": "Tool", "tool": name, "targets": args if name in ("commands", "commands1", "inputs", "multi-inputs", "query") else [], "rc": rc,
                                     "started": started, "pre": pre, "tree": post, "logsame": logs_meaning(lpre) == logs_meaning(self._log_bytes()),   # the meaning of both logs (and no lock file left)
                                     "cmds": cmds, "json": js, "g": graph_json(sc), **extra})
         finally:
